@@ -22,7 +22,7 @@ def sh(cmd, **kw):
     return subprocess.run(cmd, shell=isinstance(cmd, str), capture_output=True, text=True, **kw)
 
 
-EXPECTED_MISS = {'C07-w2m2', 'C20-w2m2', 'C02-w3m2', 'C06-w3m2'}     # documented in DESIGN.md §10 as outside the bounds
+EXPECTED_MISS = {'C07-w2m2', 'C02-w3m2', 'C06-w3m2'}     # documented in DESIGN.md §10 as outside the bounds
 only = set(sys.argv[1:])
 bad = 0
 env = dict(os.environ, VERIF_REPO=REPO)
